@@ -513,7 +513,7 @@ func (db *SpecDB) parseSpecText(file, pkg string, lines []string, lib bool) {
 		if j := strings.IndexAny(t, " \t("); j >= 0 {
 			first = t[:j]
 		}
-		isNew := first == "func" || first == "interface" || first == "lemmafn" || first == "type" || first == "spec" || first == "axiom" || first == "lemma" || clauseKW[first]
+		isNew := first == "func" || first == "interface" || first == "lemmafn" || first == "ghostfield" || first == "type" || first == "spec" || first == "axiom" || first == "lemma" || clauseKW[first]
 		if !isNew && len(items) > 0 {
 			items[len(items)-1].text += " " + t
 			continue
@@ -549,6 +549,13 @@ func (db *SpecDB) parseSpecText(file, pkg string, lines []string, lib bool) {
 			ts := &TypeSpec{TypeName: name, Pkg: pkg, Guarded: map[string]string{}, Ghost: map[string]string{}, Dyn: map[string]string{}}
 			db.Types[pkg+"."+name] = ts
 			curType, cur = ts, nil
+		case "ghostfield":
+			fs := strings.Fields(rest)
+			if len(fs) != 2 {
+				errf(it.line, "ghostfield $name type")
+				continue
+			}
+			db.Fns["ghost:"+fs[0]] = &SpecFn{Name: "ghost:" + fs[0], Ret: fs[1]}
 		case "spec":
 			f, err := parseSpecFn(rest)
 			if err != nil {
